@@ -1,7 +1,7 @@
 (* C11 — deciding obligations of the codec core (proof part of the property; the per-class part is explored
    by vf/checks/c11.py).  Statements only, closed by the lemmas proved in Codec/JsonMemoProofs.v. *)
 From Coq Require Import ZArith List Bool String.
-From VF Require Import Codec.JsonMemo Codec.JsonMemoProofs Codec.KeyPath Codec.KeyPathProofs Codec.MemoHash Codec.MemoHashProofs.
+From VF Require Import Codec.JsonMemo Codec.JsonMemoProofs Codec.KeyPath Codec.KeyPathProofs Codec.MemoHash Codec.MemoHashProofs Codec.OptField Codec.OptFieldProofs.
 Import ListNotations.
 
 (* reading back what the encoder wrote gives the value, for every finite value and every choice of by-key classes;
@@ -159,6 +159,54 @@ Theorem C11_dict_eq_sequence_hash_refuted :
 Proof. exact dict_eq_sequence_hash_refuted. Qed.
 Print Assumptions C11_dict_eq_sequence_hash_refuted.
 
+(* ---------- fields a writer may leave out (Codec/OptField.v) ---------- *)
+(* a field that is written under a condition and filled in by the reader otherwise comes back for every value exactly when
+   every omission is one the reader's fill-in undoes; this is the whole content of any "omit when default / inferable" economy *)
+Theorem C11_optional_field_roundtrip_iff :
+  forall (C A : Type) (valid : C -> A -> Prop) (infer : C -> option A) (omit : C -> A -> bool),
+  (forall c a, valid c a -> field_roundtrip infer omit c a = Some a) <->
+  (forall c a, valid c a -> omit c a = true -> infer c = Some a).
+Proof. exact opt_field_roundtrip_iff. Qed.
+Print Assumptions C11_optional_field_roundtrip_iff.
+
+(* the qid shape next to a square matrix (MatrixGate): always written (the code), or left out when it equals the shape the
+   width implies - both come back for every width and every shape *)
+Theorem C11_shape_always_written_roundtrip : forall w s, shape_roundtrip omit_never w s = Some s.
+Proof. exact shape_never_roundtrip. Qed.
+Print Assumptions C11_shape_always_written_roundtrip.
+
+Theorem C11_shape_omitted_if_equal_roundtrip : forall w s, shape_roundtrip omit_if_equal w s = Some s.
+Proof. exact shape_if_equal_roundtrip. Qed.
+Print Assumptions C11_shape_omitted_if_equal_roundtrip.
+
+(* what the width implies is a shape of qubits with that product, and for a gate on qubits it is the gate's shape *)
+Theorem C11_infer_shape_sound : forall w s, infer_shape w = Some s -> gate_ok w s = true /\ all_qubits s = true.
+Proof. exact infer_shape_sound. Qed.
+Print Assumptions C11_infer_shape_sound.
+
+Theorem C11_infer_shape_qubits : forall w s, gate_ok w s = true -> all_qubits s = true -> infer_shape w = Some s.
+Proof. exact infer_shape_qubits. Qed.
+Print Assumptions C11_infer_shape_qubits.
+
+(* leaving the shape out whenever SOME shape can be inferred: exactly the gates whose width is no power of two and the gates
+   on qubits survive; a single qudit of dimension 4 comes back as two qubits *)
+Theorem C11_shape_omitted_if_inferable_char : forall w s,
+  shape_roundtrip omit_if_inferable w s = Some s <-> (infer_shape w = None \/ infer_shape w = Some s).
+Proof. exact shape_if_inferable_char. Qed.
+Print Assumptions C11_shape_omitted_if_inferable_char.
+
+Theorem C11_shape_omitted_if_inferable_refuted : exists w s,
+  gate_ok w s = true /\ all_qubits s = false /\ shape_roundtrip omit_if_inferable w s = Some [2%N; 2%N] /\
+  shape_roundtrip omit_if_inferable w s <> Some s.
+Proof. exact shape_if_inferable_refuted. Qed.
+Print Assumptions C11_shape_omitted_if_inferable_refuted.
+
+(* the shape next to a count of qubits (IdentityGate, MeasurementGate, WaitGate): written only when some entry is not 2,
+   read as (2,) * count when absent - comes back for every shape of that many entries *)
+Theorem C11_count_shape_roundtrip : forall c s, count_ok c s = true -> count_roundtrip c s = Some s.
+Proof. exact count_shape_roundtrip. Qed.
+Print Assumptions C11_count_shape_roundtrip.
+
 (* ---------- non-vacuity ---------- *)
 Open Scope string_scope.
 Definition ex_bk (t : string) : bool := String.eqb t "FrozenCircuit".
@@ -219,3 +267,16 @@ Example C11_example_mappings :
   keys_distinct st_ab = true /\ keys_distinct st_ba = true /\ dict_eqb st_ab st_ba = true /\
   keys_distinct (map by_name res_sym) = true /\ keys_distinct (map by_name res_name) = true.
 Proof. exact dict_eq_hash_example. Qed.
+
+(* the hypotheses of the shape theorems are satisfiable; widths 0 and 6 imply no shape *)
+Example C11_example_shapes :
+  gate_ok 4 [2%N; 2%N] = true /\ all_qubits [2%N; 2%N] = true /\ infer_shape 4 = Some [2%N; 2%N] /\ infer_shape 1 = Some [] /\
+  infer_shape 0 = None /\ infer_shape 6 = None /\ gate_ok 6 [2%N; 3%N] = true /\
+  shape_roundtrip omit_if_inferable 6 [2%N; 3%N] = Some [2%N; 3%N] /\
+  shape_roundtrip omit_if_inferable 8 [2%N; 4%N] = Some [2%N; 2%N; 2%N].
+Proof. exact opt_field_examples. Qed.
+
+Example C11_example_counts : count_ok 2 [3%N; 2%N] = true /\ count_roundtrip 2 [3%N; 2%N] = Some [3%N; 2%N] /\
+  count_ok 3 [2%N; 2%N; 2%N] = true /\ write_field omit_if_qubits 3%N [2%N; 2%N; 2%N] = None /\
+  count_read 3 None = Some [2%N; 2%N; 2%N].
+Proof. exact count_examples. Qed.
